@@ -265,6 +265,7 @@ termini / labile / unknown-position / interval modifications through `mod_mass`.
 theorem condense_mass_label (E : Env) (hc : Coherent E) (a n : Annotation) (p : ℕ) (m0 : Mod) (L : List Mod) (lm : LabelMap)
     (hiso : a.isotope = some (m0 :: L)) (hl : parseIsotopeMods E.knownLabel (m0 :: L) = .ok lm) (hr : InRange a)
     (hn : ∀ i : ℤ, E.mu (.int i) = i) (hres : ∀ c, condenseStatic a = .ok c → ∀ m ∈ allMods c, isBad E m = false)
+    (hrule : absentRuleBad E a = false)
     (h : condenseToMassAnn E a p = .ok n) :
     ∃ c s x, condenseStatic a = .ok c ∧ shiftsOf E c p = .ok s ∧ n = render c s p ∧ massOf E a = .ok x ∧
       |outMass E c s p - x| ≤ (writtenL c s : ℚ) * halfUlp p + (droppedL E lm c : ℚ) * threshold + slack E c := by
@@ -282,7 +283,7 @@ theorem condense_mass_label (E : Env) (hc : Coherent E) (a n : Annotation) (p : 
     have h2 : massOf E c = massLabel E c := by simp [massOf, hciso]
     have h3 : massLabel E c = massLabel E a := by
       unfold massLabel compMassOf
-      rw [condenseStatic_idem a c hcd, hcd]
+      rw [condenseStatic_idem a c hcd, hcd, hrule, absentRuleBad_static_none E c hst]
     rw [h1, ← h3, ← h2]; exact hx
   exact ⟨c, s, x, hcd, hs, hn', hxa, hb⟩
 
@@ -293,12 +294,13 @@ theorem condense_mass_label_delta (E : Env) (hc : Coherent E) (a n : Annotation)
     (lm : LabelMap) (δ : ℚ)
     (hiso : a.isotope = some (m0 :: L)) (hl : parseIsotopeMods E.knownLabel (m0 :: L) = .ok lm) (hr : InRange a)
     (hn : ∀ i : ℤ, E.mu (.int i) = i) (hres : ∀ c, condenseStatic a = .ok c → ∀ m ∈ allMods c, isBad E m = false)
+    (hrule : absentRuleBad E a = false)
     (h : condenseToMassAnn E a p = .ok n)
     (hδ : ∀ c, condenseStatic a = .ok c → ∀ m ∈ outsideMods c, |modMass E m - modMass (envC E) m| ≤ δ) :
     ∃ c s x, condenseStatic a = .ok c ∧ shiftsOf E c p = .ok s ∧ n = render c s p ∧ massOf E a = .ok x ∧
       |outMass E c s p - x| ≤ (writtenL c s : ℚ) * halfUlp p + (droppedL E lm c : ℚ) * threshold +
         δ * ((outsideMods c).length : ℚ) := by
-  obtain ⟨c, s, x, hcd, hs, hn', hx, hb⟩ := condense_mass_label E hc a n p m0 L lm hiso hl hr hn hres h
+  obtain ⟨c, s, x, hcd, hs, hn', hx, hb⟩ := condense_mass_label E hc a n p m0 L lm hiso hl hr hn hres hrule h
   refine ⟨c, s, x, hcd, hs, hn', hx, ?_⟩
   have := slack_le E c δ (hδ c hcd)
   linarith
@@ -308,11 +310,12 @@ theorem condense_mass_label_exact (E : Env) (hc : Coherent E) (a n : Annotation)
     (lm : LabelMap)
     (hiso : a.isotope = some (m0 :: L)) (hl : parseIsotopeMods E.knownLabel (m0 :: L) = .ok lm) (hr : InRange a)
     (hn : ∀ i : ℤ, E.mu (.int i) = i) (hres : ∀ c, condenseStatic a = .ok c → ∀ m ∈ allMods c, isBad E m = false)
+    (hrule : absentRuleBad E a = false)
     (h : condenseToMassAnn E a p = .ok n)
     (hm : ∀ m : Mod, modMass E m = modMass (envC E) m) :
     ∃ c s x, condenseStatic a = .ok c ∧ shiftsOf E c p = .ok s ∧ n = render c s p ∧ massOf E a = .ok x ∧
       |outMass E c s p - x| ≤ (writtenL c s : ℚ) * halfUlp p + (droppedL E lm c : ℚ) * threshold := by
-  obtain ⟨c, s, x, hcd, hs, hn', hx, hb⟩ := condense_mass_label E hc a n p m0 L lm hiso hl hr hn hres h
+  obtain ⟨c, s, x, hcd, hs, hn', hx, hb⟩ := condense_mass_label E hc a n p m0 L lm hiso hl hr hn hres hrule h
   refine ⟨c, s, x, hcd, hs, hn', hx, ?_⟩
   rw [slack_zero E c hm] at hb
   simpa using hb
